@@ -1,10 +1,12 @@
 """C37 Byte-range bookkeeping is exact -- contracts on allmydata/util/spans.py"""
 import z3
-from pyvc.harness import Spec, IntK, Outcome
+from pyvc.harness import Spec, IntK, ChoiceK, Outcome
+from pyvc.values import *  # noqa
+from contracts.lib import native_outcome, as_sbytes
 from pyvc.values import to_z3_int as Z
 
-LEVEL = "proof"
-MANIFEST_ENTRY = {"text": 'Unbounded proof (all integers) of overlap/adjacent against interval-set semantics; Spans/DataSpans operations: see level note.', "note": 'P for overlap/adjacent. Trusted: pyvc engine (cross-checked vs CPython each run), z3.'}
+LEVEL = "other"
+MANIFEST_ENTRY = {"text": 'Unbounded proof (all integers) of overlap/adjacent against interval-set semantics; Spans.add/remove/__contains__/len/+/-/& against integer-set semantics with the representation invariant, for Spans of up to 2 spans (thorough: 3) with symbolic bounds (shape bound, hence level other). DataSpans: see level note.', "note": 'P for overlap/adjacent. Trusted: pyvc engine (cross-checked vs CPython each run), z3.'}
 EXPLANATION = "overlap/adjacent proved for all integers."
 TRUSTED = []
 ASSUMPTIONS = []
@@ -65,5 +67,403 @@ class Adjacent(Spec):
         return Outcome("return", spans.adjacent(a["start0"], a["length0"], a["start1"], a["length1"]))
 
 
+def rep(spans):
+    """representation invariant of Spans._spans: positive lengths, sorted, separated by at least one missing integer"""
+    cs = []
+    prev_end = None
+    for (st, ln) in spans:
+        st, ln = Z(st), Z(ln)
+        cs.append(ln > 0)
+        cs.append(st >= 0)
+        if prev_end is not None:
+            cs.append(st > prev_end)
+        prev_end = st + ln
+    return z3.And(cs) if cs else z3.BoolVal(True)
+
+
+def member(spans, x):
+    return z3.Or([z3.And(Z(st) <= x, x < Z(st) + Z(ln)) for (st, ln) in spans]) if spans else z3.BoolVal(False)
+
+
+class _Spans(Spec):
+    file = "allmydata/util/spans.py"
+    level = "B"
+    maxspans = 2
+    method = None
+    cross_check = 120
+
+    @property
+    def bound(self):
+        return "Spans holding 0..%d spans (all starts/lengths symbolic)" % self.maxspans
+
+    @property
+    def qualname(self):
+        return "Spans." + self.method
+
+    def span_inputs(self, prefix="s", n=None):
+        d = {}
+        for i in range(n if n is not None else self.maxspans):
+            d["%s%d" % (prefix, i)] = IntK(0, rnd=lambda r: r.randint(0, 30))
+            d["%sl%d" % (prefix, i)] = IntK(1, rnd=lambda r: r.randint(1, 8))
+        return d
+
+    def inputs(self):
+        d = self.span_inputs()
+        d.update({"n": ChoiceK(range(self.maxspans + 1)), "start": IntK(0, rnd=lambda r: r.randint(0, 40)), "length": IntK(1, rnd=lambda r: r.randint(1, 12))})
+        return d
+
+    def all_cases(self):
+        return [{"n": n} for n in range(self.maxspans + 1)]
+
+    def spans(self, a, prefix="s", n=None):
+        return [(a["%s%d" % (prefix, i)], a["%sl%d" % (prefix, i)]) for i in range(a["n"] if n is None else n)]
+
+    def requires(self, I, a):
+        return z3.And(rep(self.spans(a)), Z(a["start"]) >= 0, Z(a["length"]) > 0)
+
+    def mk(self, I, a, spans=None):
+        return SObj(self.module().Spans, {"_spans": list(self.spans(a) if spans is None else spans)})
+
+    def mk_native(self, a, spans=None):
+        from allmydata.util.spans import Spans
+        o = Spans()
+        o._spans = list(self.spans(a) if spans is None else spans)
+        return o
+
+    def same_result(self, n, s):
+        from pyvc.runner import plain_equal
+        return plain_equal(n.post, s.post) and plain_equal(n.value if not hasattr(n.value, "_spans") else None, s.value if not isinstance(s.value, SObj) else None)
+
+
+class SpansAdd(_Spans):
+    method = "add"
+
+    def run(self, I, a):
+        o = self.mk(I, a)
+        I.call_value(self.target(I), [o, a["start"], a["length"]], {})
+        out = Outcome("return", None)
+        out.post = {"spans": list(o.fields["_spans"])}
+        return out
+
+    def native(self, a):
+        o = self.mk_native(a)
+        out = native_outcome(lambda: o.add(a["start"], a["length"]))
+        out.value = None
+        out.post = {"spans": list(o._spans)}
+        return out
+
+    def ensures(self, I, a, out):
+        new, old = out.post["spans"], self.spans(a)
+        x = z3.Int("x")
+        st, ln = Z(a["start"]), Z(a["length"])
+        return [("representation-invariant-kept", rep(new)),
+                ("set-is-old-set-plus-the-range", z3.ForAll([x], member(new, x) == z3.Or(member(old, x), z3.And(st <= x, x < st + ln))))]
+
+    def canary(self, I, a, out):
+        return [("canary", z3.BoolVal(len(out.post["spans"]) == a["n"]))]
+
+
+class SpansRemove(SpansAdd):
+    method = "remove"
+
+    def native(self, a):
+        o = self.mk_native(a)
+        out = native_outcome(lambda: o.remove(a["start"], a["length"]))
+        out.value = None
+        out.post = {"spans": list(o._spans)}
+        return out
+
+    def ensures(self, I, a, out):
+        new, old = out.post["spans"], self.spans(a)
+        x = z3.Int("x")
+        st, ln = Z(a["start"]), Z(a["length"])
+        return [("representation-invariant-kept", rep(new)),
+                ("set-is-old-set-minus-the-range", z3.ForAll([x], member(new, x) == z3.And(member(old, x), z3.Not(z3.And(st <= x, x < st + ln)))))]
+
+
+class SpansContains(_Spans):
+    method = "__contains__"
+
+    def run(self, I, a):
+        r = I.call_value(self.target(I), [self.mk(I, a), (a["start"], a["length"])], {})
+        out = Outcome("return", r)
+        out.post = {}
+        return out
+
+    def native(self, a):
+        return native_outcome(lambda: (a["start"], a["length"]) in self.mk_native(a))
+
+    def ensures(self, I, a, out):
+        x = z3.Int("x")
+        st, ln = Z(a["start"]), Z(a["length"])
+        r = out.value
+        r = z3.BoolVal(r) if isinstance(r, bool) else r
+        return [("contains-iff-every-integer-of-the-range-is-in-the-set", r == z3.ForAll([x], z3.Implies(z3.And(st <= x, x < st + ln), member(self.spans(a), x))))]
+
+    def canary(self, I, a, out):
+        r = out.value
+        return [("canary", z3.Not(z3.BoolVal(r) if isinstance(r, bool) else r))]
+
+
+class SpansLen(_Spans):
+    method = "len"
+    cross_check = 40
+
+    def run(self, I, a):
+        out = Outcome("return", I.call_value(self.target(I), [self.mk(I, a)], {}))
+        out.post = {}
+        return out
+
+    def native(self, a):
+        return native_outcome(lambda: self.mk_native(a).len())
+
+    def ensures(self, I, a, out):
+        return [("len-is-the-number-of-integers-in-the-set", Z(out.value) == sum([Z(l) for (s_, l) in self.spans(a)] or [z3.IntVal(0)]))]
+
+    def canary(self, I, a, out):
+        return [("canary", Z(out.value) == 0)]
+
+
+class SpansSetOps(_Spans):
+    """a + b, a - b, a & b against set union / difference / intersection (second operand <= 2 spans)"""
+    method = "__and__"
+    cross_check = 90
+
+    def inputs(self):
+        d = self.span_inputs("s")
+        d.update(self.span_inputs("t", 2))
+        d.update({"n": ChoiceK(range(self.maxspans + 1)), "m": ChoiceK([0, 1, 2]), "op": ChoiceK(["__add__", "__sub__", "__and__"])})
+        return d
+
+    def all_cases(self):
+        return [{"n": n, "m": m, "op": op} for n in range(self.maxspans + 1) for m in (0, 1, 2) for op in ("__add__", "__sub__", "__and__")]
+
+    def others(self, a):
+        return [(a["t%d" % i], a["tl%d" % i]) for i in range(a["m"])]
+
+    def requires(self, I, a):
+        return z3.And(rep(self.spans(a)), rep(self.others(a)))
+
+    def run(self, I, a):
+        x, y = self.mk(I, a), self.mk(I, a, self.others(a))
+        r = I.call_value(I.get_attr(x, a["op"]), [y], {})
+        out = Outcome("return", None)
+        out.post = {"spans": list(r.fields["_spans"]), "left_after": list(x.fields["_spans"]), "right_after": list(y.fields["_spans"])}
+        return out
+
+    def native(self, a):
+        x, y = self.mk_native(a), self.mk_native(a, self.others(a))
+        out = native_outcome(lambda: getattr(x, a["op"])(y))
+        if out.kind == "return":
+            out.post = {"spans": list(out.value._spans), "left_after": list(x._spans), "right_after": list(y._spans)}
+            out.value = None
+        return out
+
+    def ensures(self, I, a, out):
+        new, A, B = out.post["spans"], self.spans(a), self.others(a)
+        x = z3.Int("x")
+        want = {"__add__": z3.Or(member(A, x), member(B, x)), "__sub__": z3.And(member(A, x), z3.Not(member(B, x))),
+                "__and__": z3.And(member(A, x), member(B, x))}[a["op"]]
+        from pyvc.models import values_equal
+        return [("representation-invariant-kept", rep(new)),
+                ("result-is-the-set-operation", z3.ForAll([x], member(new, x) == want)),
+                ("operands-unchanged", z3.And(z3.BoolVal(len(out.post["left_after"]) == len(A) and len(out.post["right_after"]) == len(B)),
+                                             z3.ForAll([x], z3.And(member(out.post["left_after"], x) == member(A, x), member(out.post["right_after"], x) == member(B, x)))))]
+
+    def canary(self, I, a, out):
+        return [("canary", z3.BoolVal(len(out.post["spans"]) == 0))]
+
+
+def drep(spans):
+    """DataSpans.spans: non-empty chunks, sorted, neither overlapping nor adjacent"""
+    cs, prev_end = [], None
+    for (st, data) in spans:
+        st, ln = Z(st), Z(as_sbytes(data).length)
+        cs += [ln > 0, st >= 0]
+        if prev_end is not None:
+            cs.append(st > prev_end)
+        prev_end = st + ln
+    return z3.And(cs) if cs else z3.BoolVal(True)
+
+
+def dmapped(spans, x):
+    return z3.Or([z3.And(Z(st) <= x, x < Z(st) + Z(as_sbytes(d).length)) for (st, d) in spans]) if spans else z3.BoolVal(False)
+
+
+def dval(spans, x):
+    v = z3.IntVal(-1)
+    for (st, d) in reversed(spans):
+        b = as_sbytes(d)
+        v = z3.If(z3.And(Z(st) <= x, x < Z(st) + Z(b.length)), b.at(x - Z(st)), v)
+    return v
+
+
+class _DataSpans(Spec):
+    file = "allmydata/util/spans.py"
+    level = "B"
+    maxspans = 2
+    method = None
+    cross_check = 100
+
+    @property
+    def bound(self):
+        return "DataSpans holding 0..%d chunks (offsets, lengths and every byte symbolic)" % self.maxspans
+
+    @property
+    def qualname(self):
+        return "DataSpans." + self.method
+
+    def inputs(self):
+        from pyvc.harness import BytesArrK
+        d = {}
+        for i in range(self.maxspans):
+            d["s%d" % i] = IntK(0, rnd=lambda r: r.randint(0, 30))
+            d["d%d" % i] = BytesArrK(1, rndmax=6)
+        d.update({"n": ChoiceK(range(self.maxspans + 1)), "start": IntK(0, rnd=lambda r: r.randint(0, 40)), "data": BytesArrK(0, rndmax=10),
+                  "length": IntK(0, rnd=lambda r: r.randint(0, 12))})
+        return d
+
+    def all_cases(self):
+        return [{"n": n} for n in range(self.maxspans + 1)]
+
+    def spans(self, a):
+        return [(a["s%d" % i], a["d%d" % i]) for i in range(a["n"])]
+
+    def requires(self, I, a):
+        return z3.And(drep(self.spans(a)), Z(a["start"]) >= 0)
+
+    def mk(self, I, a):
+        return SObj(self.module().DataSpans, {"spans": list(self.spans(a))})
+
+    def mk_native(self, a):
+        from allmydata.util.spans import DataSpans
+        o = DataSpans()
+        o.spans = list(self.spans(a))
+        return o
+
+    def same_result(self, n, s):
+        from pyvc.runner import plain_equal
+        return plain_equal(n.post, s.post) and plain_equal(n.value, s.value)
+
+
+class DataSpansAdd(_DataSpans):
+    method = "add"
+
+    def run(self, I, a):
+        o = self.mk(I, a)
+        I.call_value(self.target(I), [o, a["start"], a["data"]], {})
+        out = Outcome("return", None)
+        out.post = {"spans": list(o.fields["spans"])}
+        return out
+
+    def native(self, a):
+        o = self.mk_native(a)
+        out = native_outcome(lambda: o.add(a["start"], a["data"]))
+        out.post = {"spans": list(o.spans)}
+        return out
+
+    def ensures(self, I, a, out):
+        new, old = out.post["spans"], self.spans(a)
+        x = z3.Int("x")
+        st = Z(a["start"])
+        d = as_sbytes(a["data"])
+        inr = z3.And(st <= x, x < st + Z(d.length))
+        return [("representation-invariant-kept", drep(new)),
+                ("held-offsets-are-old-plus-the-written-range", z3.ForAll([x], dmapped(new, x) == z3.Or(dmapped(old, x), inr))),
+                ("later-write-wins-other-bytes-unchanged", z3.ForAll([x], z3.Implies(dmapped(new, x), dval(new, x) == z3.If(inr, d.at(x - st), dval(old, x)))))]
+
+    def canary(self, I, a, out):
+        return [("canary", z3.BoolVal(len(out.post["spans"]) == a["n"]))]
+
+
+class DataSpansRemove(_DataSpans):
+    method = "remove"
+
+    def requires(self, I, a):
+        return z3.And(drep(self.spans(a)), Z(a["start"]) >= 0, Z(a["length"]) > 0)
+
+    def run(self, I, a):
+        o = self.mk(I, a)
+        I.call_value(self.target(I), [o, a["start"], a["length"]], {})
+        out = Outcome("return", None)
+        out.post = {"spans": list(o.fields["spans"])}
+        return out
+
+    def native(self, a):
+        o = self.mk_native(a)
+        out = native_outcome(lambda: o.remove(a["start"], a["length"]))
+        out.post = {"spans": list(o.spans)}
+        return out
+
+    def ensures(self, I, a, out):
+        new, old = out.post["spans"], self.spans(a)
+        x = z3.Int("x")
+        st, ln = Z(a["start"]), Z(a["length"])
+        inr = z3.And(st <= x, x < st + ln)
+        return [("representation-invariant-kept", drep(new)),
+                ("held-offsets-are-old-minus-the-range", z3.ForAll([x], dmapped(new, x) == z3.And(dmapped(old, x), z3.Not(inr)))),
+                ("remaining-bytes-unchanged", z3.ForAll([x], z3.Implies(dmapped(new, x), dval(new, x) == dval(old, x))))]
+
+    def canary(self, I, a, out):
+        return [("canary", z3.BoolVal(len(out.post["spans"]) == a["n"]))]
+
+
+class DataSpansGet(_DataSpans):
+    method = "get"
+
+    def requires(self, I, a):
+        return z3.And(drep(self.spans(a)), Z(a["start"]) >= 0, Z(a["length"]) > 0)
+
+    def run(self, I, a):
+        o = self.mk(I, a)
+        r = I.call_value(self.target(I), [o, a["start"], a["length"]], {})
+        out = Outcome("return", r)
+        out.post = {"spans": list(o.fields["spans"])}
+        return out
+
+    def native(self, a):
+        o = self.mk_native(a)
+        out = native_outcome(lambda: o.get(a["start"], a["length"]))
+        out.post = {"spans": list(o.spans)}
+        return out
+
+    def ensures(self, I, a, out):
+        old = self.spans(a)
+        x = z3.Int("x")
+        st, ln = Z(a["start"]), Z(a["length"])
+        allheld = z3.ForAll([x], z3.Implies(z3.And(st <= x, x < st + ln), dmapped(old, x)))
+        if out.value is None:
+            return [("None-only-if-some-byte-of-the-range-is-missing", z3.Not(allheld))]
+        r = as_sbytes(out.value)
+        return [("bytes-returned-only-if-the-whole-range-is-held", allheld), ("returns-exactly-length-bytes", Z(r.length) == ln),
+                ("returned-bytes-are-the-held-bytes", z3.ForAll([x], z3.Implies(z3.And(st <= x, x < st + ln), r.at(x - st) == dval(old, x))))]
+
+    def canary(self, I, a, out):
+        return [("canary", z3.BoolVal(out.value is None))]
+
+
+class DataSpansLen(_DataSpans):
+    method = "len"
+    cross_check = 30
+
+    def run(self, I, a):
+        out = Outcome("return", I.call_value(self.target(I), [self.mk(I, a)], {}))
+        out.post = {}
+        return out
+
+    def native(self, a):
+        return native_outcome(lambda: self.mk_native(a).len())
+
+    def ensures(self, I, a, out):
+        return [("len-is-the-number-of-held-bytes", Z(out.value) == sum([Z(as_sbytes(d).length) for (s_, d) in self.spans(a)] or [z3.IntVal(0)]))]
+
+    def canary(self, I, a, out):
+        return [("canary", Z(out.value) == 0)]
+
+
 def contracts(tier):
-    return [Overlap(), Adjacent()]
+    cs = [Overlap(), Adjacent(), DataSpansAdd(), DataSpansRemove(), DataSpansGet(), DataSpansLen(), SpansAdd(), SpansRemove(), SpansContains(), SpansLen(), SpansSetOps()]
+    if tier == "thorough":
+        for c in cs[2:]:
+            c.maxspans = 3
+    return cs
